@@ -135,7 +135,48 @@ func relCoq(cl resolve.Client, pkg, reqStr string, level upgrade.Level, obs relO
 	return s, len(vs) >= 2 && cok
 }
 
+// genRelPrereleaseGap: above the requirement first a prerelease one level-step away, then the lowest
+// stable version a bigger step away (1.2.3 | 1.2.4-beta.1 | 1.3.0 under level patch; 1.2.3 | 1.3.0-rc.1 |
+// 2.0.0 under level minor), optionally more versions further up.
+func genRelPrereleaseGap(r *rand.Rand) relInput {
+	maj, min, pat := 1+r.Intn(3), r.Intn(3), r.Intn(4) // major >= 1: npm's caret is narrower for 0.x
+	base := fmt.Sprintf("%d.%d.%d", maj, min, pat)
+	vs := []string{base}
+	if pat > 0 && r.Intn(2) == 0 {
+		vs = append(vs, fmt.Sprintf("%d.%d.%d", maj, min, pat-1))
+	}
+	in := relInput{Pkg: "pa"}
+	pre := pick(r, []string{"-beta.1", "-rc.1", "-alpha"})
+	if r.Intn(3) != 0 {
+		in.Level = 2 // patch
+		vs = append(vs, fmt.Sprintf("%d.%d.%d%s", maj, min, pat+1, pre), fmt.Sprintf("%d.%d.0", maj, min+1))
+		if r.Intn(2) == 0 {
+			vs = append(vs, fmt.Sprintf("%d.%d.%d-rc.2", maj, min, pat+1))
+		}
+		if r.Intn(2) == 0 {
+			vs = append(vs, fmt.Sprintf("%d.%d.1", maj, min+1), fmt.Sprintf("%d.0.0", maj+1))
+		}
+	} else {
+		in.Level = 1 // minor
+		vs = append(vs, fmt.Sprintf("%d.%d.0%s", maj, min+1, pre), fmt.Sprintf("%d.0.0", maj+1))
+		if r.Intn(2) == 0 {
+			vs = append(vs, fmt.Sprintf("%d.1.0", maj+1))
+		}
+	}
+	r.Shuffle(len(vs), func(a, b int) { vs[a], vs[b] = vs[b], vs[a] })
+	in.Versions = vs
+	in.Req = pick(r, []string{base, base, "~" + base, "^" + base})
+	if in.Level == 1 && strings.HasPrefix(in.Req, "^") && maj > 0 {
+		in.Req = "~" + base
+	}
+	count("relax_prerelease_gap", levelCoq(upgrade.Level(in.Level)))
+	return in
+}
+
 func genRelInput(r *rand.Rand) relInput {
+	if r.Intn(10) == 0 {
+		return genRelPrereleaseGap(r)
+	}
 	n := 1 + r.Intn(12)
 	if r.Intn(5) == 0 {
 		n = 1 + r.Intn(3)
@@ -299,13 +340,37 @@ func streamFixNpm(o *output, r *rand.Rand, n int) {
 	for i := 0; i < n; i++ {
 		u := genUniverse(r, resolve.NPM)
 		m := genManifest(r, u)
-		vs := genTargetedVulns(r, u, m)
+		var extra []vulnSpec
 		cfg := genConfig(r, u)
-		runFixNpm(o, u, m, vs, cfg)
+		if i%4 == 3 {
+			// a direct dependency with a prerelease gap above its requirement, vulnerable up to the prerelease
+			in := genRelPrereleaseGap(r)
+			p := uPkg{Name: "pgap"}
+			for _, v := range in.Versions {
+				p.Versions = append(p.Versions, uVer{V: v})
+			}
+			u.Pkgs = append(u.Pkgs, p)
+			m.Deps = append(m.Deps, mDep{Name: "pgap", Req: in.Req})
+			ri := ranksOf(semver.NPM, in.Versions)
+			var fixAt string
+			for _, v := range in.Versions { // the lowest prerelease in the universe of this package
+				if strings.Contains(v, "-") && (fixAt == "" || ri.rank[v] < ri.rank[fixAt]) {
+					fixAt = v
+				}
+			}
+			extra = append(extra, vulnSpec{ID: "G-1", Pkg: "pgap", Events: [][2]string{{"introduced", "0"}, {"fixed", fixAt}}})
+			cfg.Set("pgap", upgrade.Level(in.Level))
+		}
+		vs := append(genTargetedVulns(r, u, m), extra...)
+		runFixNpm(o, u, m, vs, cfg, "")
 	}
 }
 
-func runFixNpm(o *output, u *universe, m manifestSpec, vs []vulnSpec, cfg upgrade.Config) {
+func runFixNpm(o *output, u *universe, m manifestSpec, vs []vulnSpec, cfg upgrade.Config, knownID string) {
+	pre := ""
+	if knownID != "" {
+		pre = "k_"
+	}
 	cl, err := u.client()
 	if err != nil {
 		panic(err)
@@ -318,7 +383,7 @@ func runFixNpm(o *output, u *universe, m manifestSpec, vs []vulnSpec, cfg upgrad
 	if err != nil {
 		return
 	}
-	info := map[string]any{"universe": u, "manifest": m, "vulns": vs, "config": cfgJSON(cfg)}
+	info := map[string]any{"universe": u, "manifest": m, "vulns": vs, "config": cfgJSON(cfg), "known_id": knownID}
 	ro := options.DefaultRemediationOptions()
 	ro.UpgradeConfig = cfg
 	// (1) in-situ Relax calls: ComputePatches on a traced manifest; every PatchRequirement is one Relax result
@@ -365,7 +430,7 @@ func runFixNpm(o *output, u *universe, m manifestSpec, vs []vulnSpec, cfg upgrad
 		})
 		for _, c := range calls {
 			s, nt := relCoq(cl, c.name, c.old, cfg.Get(c.name), relObs{OK: true, Version: c.new})
-			o.add("rcase", s, merge(info, map[string]any{"source": "in-situ (relax.ComputePatches on a traced manifest)", "pkg": c.name,
+			o.add(pre+"rcase", s, merge(info, map[string]any{"source": "in-situ (relax.ComputePatches on a traced manifest)", "pkg": c.name,
 				"req": c.old, "observed": relObs{OK: true, Version: c.new}, "nontrivial": nt}))
 		}
 	}
@@ -384,11 +449,11 @@ func runFixNpm(o *output, u *universe, m manifestSpec, vs []vulnSpec, cfg upgrad
 	if oc != callOK || ferr != nil {
 		return
 	}
-	var ups []result.PackageUpdate
+	var ups [][]result.PackageUpdate
 	for _, p := range res.Patches {
-		ups = append(ups, p.PackageUpdates...)
+		ups = append(ups, p.PackageUpdates)
 	}
-	addUcases(o, "ucase", 1, u.Sys, cl, m0, path, cfg, ups, func(result.PackageUpdate) bool { return true }, info)
+	addUcases(o, pre+"ucase", 1, u.Sys, cl, m0, path, cfg, ups, func(result.PackageUpdate) bool { return true }, info)
 }
 
 func merge(a, b map[string]any) map[string]any {
